@@ -58,3 +58,11 @@ THEOREMS["C08"] += ["Backend.C08_reported_is_notified", "Backend.C08_reported_is
                     "Backend.C08_accounting_on_log", "Backend.C08_dropped_equals_notified_plus_pending",
                     "Backend.PC.parseCount_reportStr", "Backend.PC.bal_runOps"]
 MODULES["C08"] += ["QuillModel.Props.C08Log"]
+# lift round 2 (w2_lifts): C08 on the observation texts of whole runs (Props/C08Trace.lean; helpers Backend/LiftObs*.lean:
+# runObs, text classifiers, the poll walk ClosedC with PC.injStep as one unit)
+THEOREMS["C08"] += ["Backend.runObs_fst", "Backend.C08_drops_are_observed", "Backend.C08_ret0_lines_le_discarded",
+                    "Backend.C08_ret0_count_eq_discarded", "Backend.C08_attempted_eq_accepted_discarded",
+                    "Backend.C08_attempted_eq_delivered_discarded_pending", "Backend.C08_actors_wf_along_run",
+                    "Backend.C08_obs_classification", "Backend.C08_front_outcome_on_text", "Backend.C08_ret0_iff_discarded",
+                    "Backend.C08_ret0_iff_discarded_resumed"]
+MODULES["C08"] += ["QuillModel.Props.C08Trace"]
